@@ -10,28 +10,30 @@ from ..util import is_assign
 
 EXPLANATION = (
     "Static decision of structural clauses of C04 over src/reader, the schema builder and the metadata "
-    "parsers: (1) untrusted-field obligations: every pointer formed from the mapping plus an offset "
-    "taken from the footer or a page header (mmap_data + X) is dominated by a guard on the mapped "
-    "size with an error exit; every size taken from a page header that is paired with a mapped "
-    "pointer (CRC, decompress, decode, zero-copy hand-out) is the field validated by that guard; "
-    "counts from headers used for allocation/zero-fill are tested for negativity in the mapped "
-    "path; the fixed-width dictionary copy is dominated by a comparison with the page size; list "
-    "counts parsed from Thrift are validated against their limits before they size an allocation or "
-    "bound a loop; loops bounded by the untrusted num_children also stop at the element count; (2) "
-    "every recursion cycle reachable from open/decode has a depth or progress guard; (3) every reader "
-    "function releases or hands over what it acquired on every path (ownership engine); page_extent_ok and "
-    "mmap_available are evaluated over a grid of sizes and must be exactly the extent predicates; (4) every "
-    "row-group/column/page/element index parameter is range-checked (a lower and an upper guard with error "
-    "exits, in one test or consecutive tests) before its first use as a subscript, directly or by the callee it is first handed to; (5) "
-    "in functions taking a carquet_error_t*, every error exit that returns NULL or a fresh error "
-    "code passes CARQUET_SET_ERROR or a callee that received the error object, and "
-    "carquet_error_set bounds its message with vsnprintf(CARQUET_ERROR_MESSAGE_MAX); (6) every store of "
-    "NULL into a capacity-tracked buffer member (decoded_values/decoded_capacity, carquet_buffer data/"
-    "capacity) is followed by a store to the capacity member before the capacity is read again or the "
-    "function returns, so `need > capacity` re-allocation tests never trust a stale capacity; (7) count_leaves "
-    "(which sizes the per-leaf arrays) and the schema walk (which fills them) decide 'leaf' by the same "
-    "predicate. Decides these "
-    "clauses, not arithmetic adequacy of every guard, total running time, nor leaks inside zlib/zstd.")
+    "parsers: (1) load_dictionary_page_mmap and load_next_page_mmap are executed abstractly over a grid "
+    "of header lies (page offsets before, inside, at and beyond the end of the file, negative / zero / "
+    "plausible / huge sizes and counts, both codecs) with the real availability and extent predicates "
+    "interpreted: every byte range handed to the header parser, the CRC, a codec, a decoder, memset or "
+    "the zero-copy view lies inside the mapping or inside the block allocated for it; page_extent_ok and "
+    "mmap_available, where they exist as functions, are exactly the extent predicates over a grid of "
+    "sizes; the fixed-width dictionary copy of carquet_read_dictionary_page stays inside the page and its "
+    "allocation for every type x count x page size; list counts parsed from Thrift are validated (0 <= "
+    "count <= limit, by an if or by a predicate helper evaluated at the boundaries) before they size an "
+    "allocation or bound a loop; loops bounded by the untrusted num_children also stop at the element "
+    "count; (2) every recursion cycle reachable from open/decode has a depth guard (counting up to a "
+    "bound or a budget counting down) or progress guard; a refill step of the streaming RLE decoder that "
+    "gives up either records an error or has nothing owed by the current run, so the loops driving it "
+    "terminate; (3) every reader function releases or hands over what it acquired on every path "
+    "(ownership engine, including blocks handed back through out-parameters of allocating helpers); (4) "
+    "every row-group/column/page/element index parameter is range-checked before its first use as a "
+    "subscript - by guards, by the conditions the use is nested in, by a range predicate helper, by the "
+    "callee it is first handed to, or (static helpers) at every call site; (5) in functions taking a "
+    "carquet_error_t*, every feasible error exit passes CARQUET_SET_ERROR or a callee that received the "
+    "error object, and carquet_error_set bounds its message; (6) every store of NULL into a "
+    "capacity-tracked buffer member is followed by a store to the capacity member before the capacity is "
+    "read again; (7) count_leaves and the schema walk decide 'leaf' by the same predicate. Decides these "
+    "clauses, not arithmetic adequacy of every guard outside the grids, total running time, nor leaks "
+    "inside zlib/zstd.")
 
 PR = "src/reader/page_reader.c"
 FRD = "src/reader/file_reader.c"
@@ -465,7 +467,7 @@ def run(ctx):
            bool(g) and bool(m) and rf.cfg.node_dominates(_first_cfg(rf, g[0]), m[0]))
 
     # ---- termination of the level / index decoder's driving loops
-    ctx.clause("C04.7 a refill step of the streaming RLE decoder that gives up records an error or has nothing owed (read loops terminate)")
+    ctx.clause("C04.8 a refill step of the streaming RLE decoder that gives up records an error or has nothing owed (read loops terminate)")
     from ..rules import progress
     nfalse, nref = progress.check(ctx, "src/encoding/rle.c", "carquet_rle_decoder")
     ctx.floor("C04 refill functions of the RLE decoder", nref, 2)
